@@ -63,10 +63,11 @@ def run(ctx):
         m.run(ctx, "C04", 40 if not ctx.thorough() else 1500)
     dask_boundary(ctx)
     custom_node_cases(ctx)
+    cancelled_consumer_cases(ctx)
     ctx.coverage["rule"] = ("(A) graph-family generator, both modes, 15% failing functions / failing consumers, every emission with a fresh counter; "
                             "(B) asynchronous pipelines over all holding node types incl. latest, every emission with a fresh counter with callback; "
                             "(C) scatter()...gather() segments of the C20 family on the in-process Dask cluster (await / buffer / concurrent producers), every input with a counter; "
-                            "(D) a user-defined coroutine node below each holding node type, every input with a counter. "
+                            "(D) a user-defined coroutine node below each holding node type, every input with a counter; (E) consumers whose awaitable is cancelled. "
                             "Non-trivial as in C01/C02.")
     ctx.assumptions += ["'derived from' = carries the element's metadata entry (flatten attaches it to the last piece only, by design)",
                         "holders are evaluated when the loop has settled after the operation during which the callback fired"]
@@ -170,11 +171,81 @@ def custom_node_cases(ctx, cases=None):
             ctx.failure("early-callback:custom-node-lost", "source -> %s -> user-defined coroutine node: elements handled %r of %d" % (kind, handled, n), case)
 
 
+def cancelled_consumer_cases(ctx, cases=None):
+    """(E) a consumer whose awaitable is CANCELLED (a task cancelled on shutdown, a future dropped by a timeout) has not handled the
+    element: like a failed one it keeps the element's references, the completion callback does not fire; the next element is unaffected."""
+    import asyncio
+    from streamz import Stream, RefCounter
+    from tornado import gen
+    from tornado.ioloop import IOLoop
+    from .. import graphlib
+    if cases is None:
+        cases = [{"cancelled_consumer": flav, "via": via} for flav in ("future", "task", "tornado") for via in ("direct", "map")]
+    for case in cases:
+        flav, via = case["cancelled_consumer"], case["via"]
+        fired, counts = [], {}
+
+        async def main(loop, flav=flav, via=via, fired=fired, counts=counts):
+            src = Stream(asynchronous=True, loop=IOLoop.current())
+            up = src if via == "direct" else src.map(lambda x: x)
+            pend = []
+
+            def consumer(x):
+                fut = loop.create_future()
+                if flav == "future":
+                    r = fut
+                elif flav == "task":
+                    async def w():
+                        await fut
+                    r = asyncio.ensure_future(w())
+                else:
+                    @gen.coroutine
+                    def tw():
+                        yield fut
+                    r = tw()
+                pend.append((fut, r))
+                return r
+            s_ = up.sink(consumer)
+            rcs = [RefCounter(cb=lambda i=i: fired.append(i), loop=graphlib.ImmediateLoop()) for i in range(2)]
+            e0 = src.emit(0, metadata=[{"ref": rcs[0]}])
+            e0.add_done_callback(lambda f: f.cancelled() or f.exception())
+            await vloop.settle(loop)
+            fut, r = pend[0]
+            r.cancel()
+            await vloop.settle(loop)
+            counts["after_cancel"] = rcs[0].count
+            counts["fired_after_cancel"] = list(fired)
+            if not fut.done():
+                fut.cancel()
+            e1 = src.emit(1, metadata=[{"ref": rcs[1]}])
+            e1.add_done_callback(lambda f: f.cancelled() or f.exception())
+            await vloop.settle(loop)
+            pend[1][0].set_result(None)
+            await vloop.settle(loop)
+            counts["final"] = [rc.count for rc in rcs]
+            del s_
+        vloop.run(main)
+        ctx.case(case, nontrivial=True)
+        ctx.count("cancelled-consumer:" + flav)
+        if 0 in fired:
+            ctx.failure("failed-callback:cancelled-consumer", "source -> %ssink(consumer returning a %s): the consumer's awaitable was cancelled while it handled element 0, "
+                        "yet the completion callback of element 0 fired (fired %r, count after the cancellation %r)"
+                        % ("map -> " if via == "map" else "", flav, fired, counts.get("after_cancel")), case,
+                        oracle="the completion callback is never triggered for an element whose processing did not complete")
+        elif fired != [1] or counts.get("final", [None, None])[1] != 0:
+            ctx.failure("early-callback:after-cancelled-consumer", "after a cancelled consumer the next element (handled normally) must complete: fired %r, final counts %r"
+                        % (fired, counts.get("final")), case)
+
+
 def replay(ctx, data):
     ctx.audit(extra_modules=lean_extra("C04"))
     case = data["case"]
     if "dask" in case:
         dask_boundary(ctx, [case["dask"]])
+        ctx.coverage["rule"] = "replay of one recorded case"
+        return
+    if "cancelled_consumer" in case:
+        cancelled_consumer_cases(ctx, [case])
         ctx.coverage["rule"] = "replay of one recorded case"
         return
     if "custom_node" in case:
